@@ -15,12 +15,15 @@ import (
 	"encoding/json"
 	"fmt"
 	"os"
+	"runtime"
 	"strconv"
 	"sync"
 	"testing"
 	"time"
 
+	"github.com/alephium/wormhole-fork/node/pkg/common"
 	gossipv1 "github.com/alephium/wormhole-fork/node/pkg/proto/gossip/v1"
+	nodev1 "github.com/alephium/wormhole-fork/node/pkg/proto/node/v1"
 	"github.com/alephium/wormhole-fork/node/pkg/vaa"
 	"go.uber.org/zap"
 )
@@ -206,4 +209,115 @@ func TestVerifC17Conc(t *testing.T) {
 	for i := 0; i < runs; i++ {
 		enc.Encode(verifC17ConcRun(seed, i, epochs))
 	}
+}
+
+// Independent producers of the outbound request queue (the processor's cleanup loop calls common.PostObservationRequest, the
+// admin RPC SendObservationRequest does too) released together on a queue with few free slots, nobody reading: every call must
+// return at once — nil for as many as there is room, ErrChanFull for the rest — and none may be left stalled in a send.
+type verifC17RaceRow struct {
+	K         string   `json:"k"`
+	Rounds    int      `json:"rounds"`
+	Producers int      `json:"producers"`
+	Calls     int      `json:"calls"`
+	Ok        int      `json:"ok"`
+	Full      int      `json:"full"`
+	Stalled   int      `json:"stalled"`
+	Round     int      `json:"stalled_round"`
+	Cap       int      `json:"cap"`
+	Fill      int      `json:"fill"`
+	Mon       []string `json:"mon"`
+}
+
+func TestVerifC17PostRace(t *testing.T) {
+	f, err := os.OpenFile(os.Getenv("VERIF_OUT"), os.O_APPEND|os.O_CREATE|os.O_WRONLY, 0644)
+	if err != nil {
+		t.Fatal(err)
+	}
+	defer f.Close()
+	enc := json.NewEncoder(f)
+	if runtime.GOMAXPROCS(0) < 4 {
+		defer runtime.GOMAXPROCS(runtime.GOMAXPROCS(4))
+	}
+	seed, _ := strconv.ParseUint(os.Getenv("VERIF_SEED"), 10, 64)
+	r := &verifC17Rng{s: seed ^ 0xC17D}
+	rounds := 8000
+	if os.Getenv("VERIF_TIER") == "thorough" {
+		rounds = 80000
+	}
+	const producers = 4
+	row := &verifC17RaceRow{K: "race", Rounds: rounds, Producers: producers, Round: -1, Mon: []string{}}
+	svcLogger := zap.NewNop()
+	for round := 0; round < rounds; round++ {
+		capacity := []int{1, 1, 2, 3, common.ObsvReqChannelSize}[r.below(5)]
+		free := 1
+		if capacity > 1 && r.below(4) == 0 {
+			free = 2
+		}
+		ch := make(chan *gossipv1.ObservationRequest, capacity)
+		for i := 0; i < capacity-free; i++ {
+			ch <- &gossipv1.ObservationRequest{ChainId: 2, TxHash: []byte{0xff, byte(i)}}
+		}
+		start := make(chan struct{})
+		res := make(chan int, producers)
+		for p := 0; p < producers; p++ {
+			req := &gossipv1.ObservationRequest{ChainId: 2, TxHash: []byte{byte(p)}}
+			admin := p%2 == 1
+			go func() {
+				<-start
+				var err error
+				if admin {
+					svc := &nodePrivilegedService{obsvReqSendC: ch, logger: svcLogger}
+					_, err = svc.SendObservationRequest(context.Background(), &nodev1.SendObservationRequestRequest{ObservationRequest: req})
+				} else {
+					err = common.PostObservationRequest(ch, req)
+				}
+				switch {
+				case err == nil:
+					res <- 0
+				case err == common.ErrChanFull:
+					res <- 1
+				default:
+					res <- 2
+				}
+			}()
+		}
+		close(start)
+		ok, full, other := 0, 0, 0
+		timeout := time.After(3 * time.Second)
+		done := 0
+	collect:
+		for done < producers {
+			select {
+			case x := <-res:
+				done++
+				switch x {
+				case 0:
+					ok++
+				case 1:
+					full++
+				default:
+					other++
+				}
+			case <-timeout:
+				break collect
+			}
+		}
+		row.Calls += producers
+		row.Ok += ok
+		row.Full += full
+		if done < producers {
+			row.Stalled = producers - done
+			row.Round, row.Cap, row.Fill = round, capacity, capacity-free
+			row.Mon = append(row.Mon, fmt.Sprintf("round %d: %d concurrent posts on a queue holding %d of %d: %d returned nil, %d returned ErrChanFull, %d did not return within 3 s (stalled in a send on the full queue)",
+				round, producers, capacity-free, capacity, ok, full, producers-done))
+			break
+		}
+		if ok != free || full != producers-free || other != 0 || len(ch) != capacity {
+			row.Round, row.Cap, row.Fill = round, capacity, capacity-free
+			row.Mon = append(row.Mon, fmt.Sprintf("round %d: %d concurrent posts on a queue holding %d of %d: %d returned nil, %d ErrChanFull, %d another error, queue length afterwards %d (expected %d nil, %d ErrChanFull, queue full)",
+				round, producers, capacity-free, capacity, ok, full, other, len(ch), free, producers-free))
+			break
+		}
+	}
+	enc.Encode(row)
 }
